@@ -136,12 +136,16 @@ structure State (M E : Type) where
   gHalf : Bool           -- the i2o pump saw EOF (client half-close / target stopped reading)
   gFinals : List (Option E)   -- terminal results of outgoing.Recv, in order: none = EOF, some e = status e
   gFault : Bool          -- an event outside "fault-free" happened (see `faultLabel`)
+  gErrs : List E         -- every error value a stream operation has returned so far (see `peerErr?`)
+  gCtxs : List Why       -- external cancellations / deadline expiries so far (`ctxDone`), in order
+  gClientEOF : Bool      -- Incoming.Recv has returned EOF
   deriving DecidableEq, Repr
 
 def init (M E : Type) : State M E :=
   { main := .start, i2o := .absent, o2i := .absent, i2oCh := none, o2iCh := none, ctx := none, out := .none,
     gIncRecv := [], gOutSent := [], gOutRecv := [], gIncSent := [], gDropped := [], gLost := [],
-    gCloseSend := false, gHalf := false, gFinals := [], gFault := false }
+    gCloseSend := false, gHalf := false, gFinals := [], gFault := false,
+    gErrs := [], gCtxs := [], gClientEOF := false }
 
 variable {M E : Type}
 
@@ -168,6 +172,23 @@ def faultLabel : Label M E → Bool
   | .outStreamRet (.err _) => true
   | .outSendRet (.err _) => true
   | .ctxDone _ => true
+  | _ => false
+
+/-- the error value a stream operation returned, if the label is such a return -/
+def peerErr? : Label M E → Option E
+  | .incRecvRet (.err e) => some e
+  | .incSendRet (.err e) => some e
+  | .outStreamRet (.err e) => some e
+  | .outSendRet (.err e) => some e
+  | .outRecvRet (.err e) => some e
+  | _ => none
+
+def ctxWhy? : Label M E → Option Why
+  | .ctxDone w => some w
+  | _ => none
+
+def isClientEOF : Label M E → Bool
+  | .incRecvRet .eof => true
   | _ => false
 
 def IPc.gone : IPc M → Bool
@@ -329,10 +350,13 @@ def stepCore [DecidableEq M] [DecidableEq E] (p : Params) (s : State M E) : Labe
     | .deferWait e' => if e = e' ∧ pumpsGone s = true then some { s with main := .done e } else none
     | _ => none
 
-/-- The LTS step: `stepCore` plus the ghost fault flag. -/
+/-- The LTS step: `stepCore` plus the ghost fields that depend on the label only. -/
 def step [DecidableEq M] [DecidableEq E] (p : Params) (s : State M E) (l : Label M E) : Option (State M E) :=
   match stepCore p s l with
-  | some s' => some { s' with gFault := s'.gFault || faultLabel l }
+  | some s' => some { s' with gFault := s'.gFault || faultLabel l,
+                              gErrs := s'.gErrs ++ (peerErr? l).toList,
+                              gCtxs := s'.gCtxs ++ (ctxWhy? l).toList,
+                              gClientEOF := s'.gClientEOF || isClientEOF l }
   | none => none
 
 abbrev Reachable [DecidableEq M] [DecidableEq E] (p : Params) (s : State M E) : Prop :=
